@@ -1,7 +1,8 @@
 open Sexp
 open Conv
 (* ---- C21 pagination
-   (pages col|off "label" (k ...) size asc)  -> (ok (pages ((k ..) ..)) (more (1 0 ..)) (prev1 (none (k ..) ..)) (back ((k ..) ..))) | (fail)
+   (pages col|off (variant ..) (k ...) (size ...) asc (hist ..)) -> (reports (R ...)), one R per size:
+        R = (ok (pages ((k ..) ..)) (more (1 0 ..)) (prev1 (none (k ..) ..)) (back ((k ..) ..))) | (fail)
    (build (size asc pid bottom rev) (row ..)) -> (ok (data ..) more prev next) | (panic)         query = (size asc pid|nil bottom|nil rev)
    (fetch (size asc pid bottom rev) (k ..))   -> (rows ..)
    (opage (size asc offset) (k ..))           -> (ok (data ..) more prev next) | (err)            oquery = (size asc offset) *)
@@ -22,13 +23,15 @@ let opt f = function None -> A "none" | Some x -> f x
 
 let () = register "pages" (fun c ->
   match c with
-  | L [A "pages"; A kind; _; L ks; size; asc] ->
+  | L (A "pages" :: A kind :: _ :: L ks :: L sizes :: asc :: _) ->
     let ks = List.map zarg ks in
-    let r = (if kind = "col" then Model.column_report else Model.offset_report) ks (natarg size) (barg asc) in
-    (match r with
-     | None -> L [A "fail"]
-     | Some r -> L [A "ok"; L [A "pages"; L (List.map zl r.Model.r_pages)]; L [A "more"; L (List.map b01 r.Model.r_more)];
-                    L [A "prev1"; L (List.map (opt zl) r.Model.r_prev1)]; L [A "back"; L (List.map zl r.Model.r_back)]])
+    let one size =
+      let r = (if kind = "col" then Model.column_report else Model.offset_report) ks (natarg size) (barg asc) in
+      (match r with
+       | None -> L [A "fail"]
+       | Some r -> L [A "ok"; L [A "pages"; L (List.map zl r.Model.r_pages)]; L [A "more"; L (List.map b01 r.Model.r_more)];
+                      L [A "prev1"; L (List.map (opt zl) r.Model.r_prev1)]; L [A "back"; L (List.map zl r.Model.r_back)]]) in
+    L [A "reports"; L (List.map one sizes)]
   | L [A "build"; q; L rows] ->
     (match Model.build_cursor (query q) (List.map zarg rows) with
      | None -> L [A "panic"]
